@@ -551,6 +551,32 @@ M("c02-noslash-skips-next-byte", "C02", "json_object.c",
   "\t\t\tif ((flags & JSON_C_TO_STRING_NOSLASHESCAPE) && c == '/')\n\t\t\t{\n\t\t\t\tpos++;\n\t\t\t\tbreak;\n\t\t\t}",
   "\t\t\tif ((flags & JSON_C_TO_STRING_NOSLASHESCAPE) && c == '/')\n\t\t\t{\n\t\t\t\tpos += 2;\n\t\t\t\tif (len)\n\t\t\t\t\t--len;\n\t\t\t\tbreak;\n\t\t\t}",
   needle="C02.R1")
+M("c08-destructor-on-half-built-array", "C08", "json_object.c",
+  "\tif (jso->c_array == NULL)\n\t{\n\t\tfree(jso);\n\t\treturn NULL;\n\t}",
+  "\tif (jso->c_array == NULL)\n\t{\n\t\tjson_object_put(&jso->base);\n\t\treturn NULL;\n\t}", needle="C08.R1f")
+M("c10-benign-unsigned-read-through-signed-member", "C10", "json_object.c",
+  "\t\tsnprintf(sbuf, sizeof(sbuf), \"%\" PRIu64, JC_INT(jso)->cint.c_uint64);",
+  "\t\tsnprintf(sbuf, sizeof(sbuf), \"%\" PRIu64, (uint64_t)JC_INT(jso)->cint.c_int64);", expect="silent")
+M("c10-benign-punned-read-used-unsigned", "C10", "json_object.c",
+  "\t\tif (val > 0 && jsoint->cint.c_uint64 > UINT64_MAX - (uint64_t)val)",
+  "\t\tif (val > 0 && (uint64_t)jsoint->cint.c_int64 > UINT64_MAX - (uint64_t)val)", expect="silent")
+M("c10-signed-compare-of-unsigned-node", "C10", "json_object.c",
+  "\t\tif (val > 0 && jsoint->cint.c_uint64 > UINT64_MAX - (uint64_t)val)",
+  "\t\tif (val > 0 && jsoint->cint.c_int64 > INT64_MAX - val)", needle="C10.R")
+M("c10-set-int64-keeps-old-tag", "C10", "json_object.c",
+  "\tJC_INT(jso)->cint.c_int64 = new_value;\n\tJC_INT(jso)->cint_type = json_object_int_type_int64;\n\treturn 1;",
+  "\tJC_INT(jso)->cint.c_int64 = new_value;\n\treturn 1;", needle="C10.R3")
+M("c10-benign-tag-before-member", "C10", "json_object.c",
+  "\tJC_INT(jso)->cint.c_uint64 = new_value;\n\tJC_INT(jso)->cint_type = json_object_int_type_uint64;",
+  "\tJC_INT(jso)->cint_type = json_object_int_type_uint64;\n\tJC_INT(jso)->cint.c_uint64 = new_value;", expect="silent")
+M("c13-overlap-guard-move-only", "C13", "json_patch.c",
+  "\tif (strncmp(from_s, path, from_s_len) == 0 &&", "\tif (move && strncmp(from_s, path, from_s_len) == 0 &&", needle="C13.R7")
+M("c13-overlap-string-prefix", "C13", "json_patch.c",
+  "\tif (strncmp(from_s, path, from_s_len) == 0 &&\n\t    (path[from_s_len] == '\\0' || path[from_s_len] == '/')) {",
+  "\tif (strncmp(from_s, path, from_s_len) == 0) {", needle="C13.R7")
+M("c13-benign-overlap-rewrite", "C13", "json_patch.c",
+  "\tif (strncmp(from_s, path, from_s_len) == 0 &&\n\t    (path[from_s_len] == '\\0' || path[from_s_len] == '/')) {",
+  "\tif (strlen(path) >= from_s_len && memcmp(from_s, path, from_s_len) == 0 &&\n\t    (path[from_s_len] == '/' || !path[from_s_len])) {", expect="silent")
 M("c02-benign-escape-reorder", "C02", "json_object.c",
   "\t\t\tif (c == '\\b')\n\t\t\t\tprintbuf_memappend(pb, \"\\\\b\", 2);\n\t\t\telse if (c == '\\n')\n\t\t\t\tprintbuf_memappend(pb, \"\\\\n\", 2);",
   "\t\t\tif (c == '\\n')\n\t\t\t\tprintbuf_memappend(pb, \"\\\\n\", 2);\n\t\t\telse if (c == '\\b')\n\t\t\t\tprintbuf_memappend(pb, \"\\\\b\", 2);", expect="silent")
